@@ -61,6 +61,8 @@ func runC05(c *Check, a *Analysis) {
 	rulePipeliningQueues(c, a, "R-PIPELINING-QUEUES")
 	ruleSchedNil(c, a, "R-SCHED-NIL")
 	ruleExecQueueAfterWait(c, a, "R-EXEC-QUEUE-AFTER-WAIT")
+	ruleQueueConfig(c, a, "R-QUEUE-CONFIG")
+	ruleDecodeRouteConstant(c, a, "R-DECODE-ROUTE")
 	ruleInlineReplies(c, a, "R-INLINE-REPLIES")
 	ruleQuiesceBeforeClose(c, a, "R-QUIESCE-BEFORE-CLOSE")
 	ls := a.Locks()
